@@ -541,6 +541,15 @@ def _shape_place(fn, pl, depth, seen):
             suffix += "[%s%d]" % ("-" if p["from_end"] else "", p["ci"])
         else:
             suffix += "[i]"
+    if _RESTRICT[0] is not None and any("ix" in p for p in fields):
+        # path mode: keep the index expression, `index(base, i)` (parseable), then the remaining projections
+        k = next(i for i, p in enumerate(pl["p"]) if isinstance(p, dict) and "ix" in p)
+        base = _shape_place(fn, {"l": pl["l"], "p": pl["p"][:k]}, depth, seen)
+        idx = _shape_local(fn, pl["p"][k]["ix"], depth - 1, seen)
+        rest = ""
+        for p in [q for q in pl["p"][k + 1:] if isinstance(q, dict)]:
+            rest += ("." + p["n"]) if "f" in p else ("@" + p["dc"]) if "dc" in p else ("[%s%d]" % ("-" if p["from_end"] else "", p["ci"])) if "ci" in p else ""
+        return "index(%s, %s)%s" % (base, idx, rest)
     if fields:
         sel = _select_aggregate_operand(fn, pl)
         if sel is not None:
@@ -562,6 +571,7 @@ def _shape_place(fn, pl, depth, seen):
 
 
 _RESTRICT = [None]
+_CALLEES = {}  # path mode: (function, short callee name, arity) -> resolved callee ids seen
 
 
 def shape_on(fn, op_or_local, blocks, depth=12):
@@ -630,6 +640,8 @@ def _shape_local(fn, l, depth, seen):
                     if m:
                         extra = ['"%s"' % m.group(1)]
                 nm = short_name(names[-1] if names else "indirect")
+                if _RESTRICT[0] is not None and names:
+                    _CALLEES.setdefault((fn.id, nm, len(n["args"])), set()).add(names[-1])
                 if _RESTRICT[0] is not None and names and "{closure" in names[-1]:
                     nm = "Fn::call"  # a direct call of a closure value: callee identity is in its first argument
                 alts.append("%s(%s)" % (nm, ", ".join([shape(fn, a, depth - 1, seen) for a in n["args"]] + extra)))
